@@ -35,6 +35,7 @@ func execGreedy(g *graph.DGraph, params graph.Params) {
 		outdeg:  graph.NodeIntMap{},
 		indeg:   graph.NodeIntMap{},
 	}
+	verifReseed(&p)
 
 	var (
 		nodeCount = len(g.Nodes)
